@@ -780,6 +780,41 @@ func (vc *VC) callSiteAsserts(fr *frame, n *Node, x *ssa.Call, callee string, ar
 					}
 				}
 			}
+			// other named locals through debug references: the latest definition that dominates the call
+			if fr.dbg != nil {
+				var best *ssa.DebugRef
+				for obj, drs := range fr.dbg.byObj {
+					if obj.Name() != name {
+						continue
+					}
+					for _, dr := range drs {
+						if dr.IsAddr {
+							continue
+						}
+						in, isIn := dr.X.(ssa.Instruction)
+						if isIn {
+							db := in.Block()
+							if !(db == n.blk && instrIndex(dr.X) < instrIndex(x)) && !(db != n.blk && db.Dominates(n.blk)) {
+								continue
+							}
+						}
+						if _, ok := n.env[dr.X]; !ok {
+							continue
+						}
+						if best == nil {
+							best = dr
+							continue
+						}
+						bb, cb := blockOf(best.X), blockOf(dr.X)
+						if bb == nil || (cb != nil && bb != cb && bb.Dominates(cb)) || (cb != nil && bb == cb && instrIndex(dr.X) > instrIndex(best.X)) {
+							best = dr
+						}
+					}
+				}
+				if best != nil {
+					return n.env[best.X], true
+				}
+			}
 			return Val{}, false
 		}
 		entryLookup := func(name string) (Val, bool) { return vc.paramLookup(fr, name) }
